@@ -65,6 +65,9 @@ open_("D18a", "C16", "integer division or modulo by zero panics (types/core.rs:1
 open_("D18f", "C16", "an expression nested a few thousand levels deep (NOT NOT ..., parentheses) overflows the stack: the process aborts", "O-live:process-died", "nesting_deeper_than_200", "findings/D18f-deeply-nested-expression-overflows-the-stack.json")
 open_("D35", "C16", "INSERT INTO t SELECT * FROM t never returns (the scan sees the rows it inserts)", "O-live:hang", "insert_select_from_same_table", "findings/D35-insert-select-from-same-table-never-returns.json")
 
+# ---- open findings: threads (C14) ----
+open_("T1", "C14", "two client threads inserting into the same table lose acknowledged rows (final COUNT(*) below the number of acknowledged inserts; COUNT(*) below what was acknowledged before it started)", "O-state", "concurrent_inserts_into_one_table", "findings/T1-concurrent-inserts-into-one-table-lose-acknowledged-rows.json")
+
 # ---- open findings: E2 (crash simulator) ----
 open_("D3", "C01", "a transaction open at the crash on a table whose CREATE is still in the log makes open fail ('Table not found'): undo runs before redo", "O-open", "open_txn_on_uncheckpointed_table", "findings/D3-open-txn-on-uncheckpointed-table.json")
 open_("D3b", "C08", "an uncommitted CREATE TABLE in the log at the crash makes open fail ('Table not found' while undoing it)", "O-open", "uncommitted_create_at_crash", "findings/D3b-uncommitted-create-at-crash.json")
